@@ -13,6 +13,11 @@ event = ['call', arg, key|None]            one caller task (caller id = running 
       | ['chain', arg, key|None, m]        one task making m+1 sequential calls, each in the continuation of the
                                            previous answer (every call gets the next caller id when it is made)
       | ['burst', [[arg, key|None] ...]]   several caller tasks created in the same loop iteration
+      | ['burstc', [[arg, key|None] ...], j]  the same, and the j-th of these tasks is cancelled in the loop iteration
+                                           right after the tasks issued their requests, BEFORE the batcher's own tasks
+                                           run (a timeout that fires while the request is still being enqueued).  For
+                                           the model this is  Burst l ; Cancel (first caller id + j) : `expand` splits
+                                           the event and its observations accordingly before they are handed to Coq
       | ['adv', dt]                        advance virtual time by dt ticks (1 tick = 2**-10 s)
       | ['yield', bid, key, 'v'|'e', x]    the batch function of batch bid yields (str(key), x) / (str(key), HExc(x))
       | ['raise', bid, e]                  the batch function raises HExc(e) (for odd e an HExc that is also a KeyError)
@@ -135,6 +140,7 @@ class _Run:
         self.parked = {}       # bid -> harness future the batch function is parked on
         self.ncid = 0          # caller ids handed out (one per call made)
         self.inflight = {}     # cid -> task currently awaiting that call
+        self.first_cids = {}   # index of a 'burstc' event -> caller id of its first task
         self.batcher = None
         self.call = None
 
@@ -197,7 +203,7 @@ class _Run:
     def new_task(self, arg, key, more=0):
         cid = self.ncid
         self.ncid += 1
-        self.sim.loop.create_task(self.caller(cid, arg, key, more))
+        return self.sim.loop.create_task(self.caller(cid, arg, key, more))
 
     def setup(self):
         import aiuti.asyncio as A
@@ -215,7 +221,12 @@ class _Run:
         kind = ev[0]
         if self.call is None:
             self.setup()
-        if kind == 'call':
+        if kind == 'burstc':
+            self.first_cids[self.sim.step] = self.ncid
+            ts = [self.new_task(a, k) for a, k in ev[1]]
+            if 0 <= ev[2] < len(ts):
+                loop.call_soon(ts[ev[2]].cancel)      # runs after the tasks' first steps, before the collector
+        elif kind == 'call':
             self.new_task(ev[1], ev[2])
         elif kind == 'chain':
             self.new_task(ev[1], ev[2], ev[3])
@@ -265,6 +276,8 @@ class _Run:
             done = {o[1] for s in canon for o in s if o[0] == 'done'}
             waiting = [c for c in range(self.ncid) if c not in done]
             res = dict(steps=canon, waiting=waiting)
+            if self.first_cids:
+                res['first_cids'] = {str(k): v for k, v in self.first_cids.items()}
             if sim.spun:
                 res['spun'] = True
             return res
@@ -372,14 +385,37 @@ def coq_events(evs):
     return C.coq_list([coq_event(e) for e in evs])
 
 
+def expand(case, obs):
+    """(events, observed steps) as the model sees them: a 'burstc' event becomes Burst l ; Cancel cid and the
+    Cancelled completion of that caller (if any) moves to the Cancel step."""
+    evs, steps = [], []
+    fc = (obs or {}).get('first_cids') or {}
+    osteps = (obs or {}).get('steps') or [[] for _ in case['evs']]
+    ncalls = 0
+    for i, e in enumerate(case['evs']):
+        st = osteps[i] if i < len(osteps) else []
+        if e[0] == 'burstc':
+            cid = fc.get(str(i), ncalls) + e[2]
+            hit = [o for o in st if o[0] == 'done' and o[1] == cid and o[2] == ['cancelled']]
+            evs += [['burst', e[1]], ['cancel', cid]]
+            steps += [[o for o in st if o not in hit], hit]
+        else:
+            evs.append(e)
+            steps.append(st)
+        ncalls += n_calls([e])
+    return evs, steps
+
+
 def to_coq(case, obs):
-    steps = C.coq_list([C.coq_list([coq_obs(o) for o in s]) for s in obs['steps']])
+    evs, osteps = expand(case, obs)
+    steps = C.coq_list([C.coq_list([coq_obs(o) for o in s]) for s in osteps])
     waiting = C.coq_list([_n(c) for c in obs['waiting']])
-    return f'BCase {coq_cfg(case["cfg"])} {coq_events(case["evs"])} {steps} {waiting}'
+    return f'BCase {coq_cfg(case["cfg"])} {coq_events(evs)} {steps} {waiting}'
 
 
 def explain_exprs(case, obs):
-    return [f'Batcher.run_trace {coq_cfg(case["cfg"])} {coq_events(case["evs"])}']
+    evs, _ = expand(case, obs)
+    return [f'Batcher.run_trace {coq_cfg(case["cfg"])} {coq_events(evs)}']
 
 
 # --------------------------------------------------------------------------
@@ -393,7 +429,7 @@ def n_calls(evs):
             n += 1
         elif e[0] == 'chain':
             n += 1 + e[3]
-        elif e[0] == 'burst':
+        elif e[0] in ('burst', 'burstc'):
             n += len(e[1])
     return n
 
@@ -416,6 +452,12 @@ def shrink_candidates(case):
     for i, e in enumerate(evs):
         if e[0] == 'burst' and len(e[1]) > 1:
             out.append(dict(case, evs=evs[:i] + [['burst', e[1][:-1]]] + evs[i + 1:]))
+        if e[0] == 'burstc':
+            out.append(dict(case, evs=evs[:i] + [['burst', e[1]]] + evs[i + 1:]))
+            for j in range(len(e[1])):
+                if len(e[1]) > 1 and j != e[2]:
+                    l2 = e[1][:j] + e[1][j + 1:]
+                    out.append(dict(case, evs=evs[:i] + [['burstc', l2, e[2] - (1 if j < e[2] else 0)]] + evs[i + 1:]))
         if e[0] == 'adv' and e[1] > 1:
             out.append(dict(case, evs=evs[:i] + [['adv', e[1] // 2]] + evs[i + 1:]))
         if e[0] == 'chain':
@@ -445,9 +487,10 @@ def distribution(cases, obs):
             elif k == 'chain':
                 d['chains'] += 1
                 d['calls'] += 1
-            elif k == 'burst':
+            elif k in ('burst', 'burstc'):
                 d['bursts'] += 1
                 d['calls'] += len(e[1])
+                d['cancels'] += (k == 'burstc')
             else:
                 d[{'adv': 'adv', 'yield': 'yields', 'raise': 'raises', 'fin': 'fins',
                    'cancel': 'cancels', 'setmax': 'setmax'}[k]] += 1
@@ -462,7 +505,7 @@ def distribution(cases, obs):
                     d['died'] += 1
                 else:
                     d['done_' + x[2][0]] += 1
-                    if e[0] in ('call', 'burst', 'chain') and x[2][0] != 'cancelled':
+                    if e[0] in ('call', 'burst', 'burstc', 'chain') and x[2][0] != 'cancelled':
                         d['immediate_shares'] += 1
     return d
 
